@@ -1,4 +1,6 @@
 """C20 — Trainer.fit / Evaluator (synapgrad/nn/utils/train.py) against Synap.Train"""
+import os, math
+from fractions import Fraction
 import numpy as np
 import common
 from common import show_ints, outcome, tmod
@@ -6,14 +8,24 @@ from common import show_ints, outcome, tmod
 PROP = 'C20'
 LEAN_TARGETS = ['Props.C20']
 REQUIRED_THEOREMS = ['Props.C20.fit_trace', 'Props.C20.steps_count', 'Props.C20.step_discipline_block',
-                     'Props.C20.validation_pure', 'Props.C20.test_trace', 'Props.C20.history_shape', 'Props.C20.accuracy_spec']
+                     'Props.C20.validation_pure', 'Props.C20.test_trace', 'Props.C20.history_shape', 'Props.C20.accuracy_spec',
+                     'Props.C20.evaluator_accumulates', 'Props.C20.evaluator_rejects', 'Props.C20.accuracy_batching_invariant',
+                     'Props.C20.accuracy_batching_invariant_fit', 'Props.C20.epoch_loss_is_mean', 'Props.C20.accuracy_is_fraction_correct',
+                     'Props.C20.history_one_entry_per_epoch', 'Props.C20.decode_binary', 'Props.C20.decode_argmax', 'Props.C20.decode_label',
+                     'Props.C20.wrap16_id', 'Props.C20.correct_of_int16_range', 'Props.C20.test_returns_all_samples']
 RULE = ('grid epochs 0..3 x train batches 0..3 x validation (none, 0, 1, 2 batches) x both callbacks x evaluator '
         '(off / 3 label modes) x initial training flag x initial grad mode x initial module tree consistent / with submodules switched on their own, run on the real Trainer with a model holding '
         'BatchNorm and Dropout, recording wrappers around model / optimizer / engine / Tensor.backward; quick samples the '
-        'grid, thorough enumerates it. Non-trivial: at least one epoch and one batch. loaders partly iterated before fit or peeked at inside the callbacks; Trainer.test under both gradient modes, with the Trainer constructed under either mode. Plus accuracy cases in 3 modes.')
+        'grid, thorough enumerates it. Non-trivial: at least one epoch and one batch. loaders partly iterated before fit or peeked at inside the callbacks; Trainer.test under both gradient modes, with the Trainer constructed under either mode. Plus accuracy cases in 3 modes. '
+        'VALUES: (ev) the real Evaluator driven through random step/compute/reset/state sequences (3 modes, accuracy on/off, epoch and step callbacks, prefix None/val, '
+        'batches of 0 and 2..6 samples of different sizes, scores on scales 4 / 1024 / 2^24 crowded around the 0.5 threshold and full of ties, (B,) and (B,1) layouts) against evStep/evCompute/evReset; '
+        '(hist) the real Trainer.fit on an identity model with a criterion returning planned dyadic losses, loaders whose batches differ in size, with/without validation/evaluator/callbacks, '
+        'colliding callback metric names, non-float callback values, an evaluator handed over with leftovers, against fitHist: keys, entry counts, accuracy counts exactly, loss means within float rounding; '
+        'one epoch of 40 batches x 1000 samples (counters beyond int16); (histreal) real training (Linear + BCE/CE/MSE + SGD) with the per-batch losses, labels and outputs recorded by a wrapper and sent '
+        'to the model as exact rationals / integers; (testret) what Trainer.test returns. Batches of ONE sample are not generated (finding F-C20-1: Evaluator.step raises on them; VERIF_C20_SIZE1=1 includes them).')
 EXHAUSTIVE = {'quick': False, 'thorough': True}
 ASSUMPTIONS = ['pkbar progress bar is stubbed (harness/stubs/pkbar.py)']
-TRUSTED_BASE = ['harness/props/c20.py (recording wrappers, canonicalisation)']
+TRUSTED_BASE = ['harness/props/c20.py (recording wrappers, canonicalisation, exact float -> integer scaling of recorded outputs and losses)']
 
 MODES = [None, 'binary', 'multi-class', 'categorical']
 
@@ -67,9 +79,10 @@ def cases(rng, tier):
         out.append({'kind': 'acc', 'mode': mode, 'k': k,
                     'labels': [rng.randrange(2 if mode == 'binary' else k) for _ in range(n)],
                     'scores': [[rng.randint(-8, 8) / 4 for _ in range(k)] for _ in range(n)]})
+    out += _value_cases(rng, tier)
     for c in out:
         c['lines'] = _lines(c)
-        c['desc'] = ' ; '.join(c['lines'])
+        c['desc'] = ' ; '.join(c['lines'])[:600]
     return out
 
 
@@ -80,6 +93,8 @@ def _pred(c):
 
 
 def _lines(c):
+    if c['kind'] in VALUE_KINDS:
+        return _vlines(c)
     if c['kind'] == 'test':
         return [f"train test {c['nt']} {c['tr0']} {c['g0']}"]
     if c['kind'] == 'fit':
@@ -273,6 +288,8 @@ def _run_acc(c):
 
 
 def impl(c):
+    if c['kind'] in VALUE_KINDS:
+        return _vimpl(c)
     if c['kind'] in ('fit', 'test'):
         r = outcome(lambda: _run_fit(c))
         if r == 'rejected':
@@ -294,6 +311,8 @@ def impl(c):
 
 
 def compare(c, mo, io):
+    if c['kind'] in VALUE_KINDS:
+        return _vcompare(c, mo, io)
     diffs = [(k, m, i) for k, (m, i) in enumerate(zip(mo, io)) if m != i]
     if c['kind'] in ('fit', 'test'):
         fl = c.get('_flags', {})
@@ -307,12 +326,18 @@ def compare(c, mo, io):
 
 
 def nontrivial(c):
+    if c['kind'] in VALUE_KINDS:
+        return _vnontrivial(c)
     return (c['kind'] == 'fit' and c['e'] > 0 and c['nt'] > 0 and c['g0'] == 1) or (c['kind'] == 'acc' and len(c['labels']) > 1) or (c['kind'] == 'test' and c['nt'] > 0)
 
 
 def distribution(cases):
     d = {}
     for c in cases:
+        if c['kind'] in VALUE_KINDS:
+            k = c['kind'] + '/' + str(c.get('mode')) + ('/large' if c.get('large') else '')
+            d[k] = d.get(k, 0) + 1
+            continue
         k = c['kind'] + ('/val' if c.get('nv') is not None else '') + ('/ev' if c.get('ev') else '')
         d[k] = d.get(k, 0) + 1
     return d
@@ -320,6 +345,8 @@ def distribution(cases):
 
 # ---- property predicate on the implementation alone -------------------------------------------
 def oracle(c):
+    if c['kind'] in VALUE_KINDS:
+        return _voracle(c)
     if c['kind'] == 'acc':
         r = outcome(lambda: _run_acc(c))
         if r == 'rejected':
@@ -389,6 +416,614 @@ def oracle(c):
             if c['ev']: want['val_accuracy'] = c['e']
     if keys != want:
         return fail('history', f'history {keys}, expected {want}')
+    return None
+
+
+# =================================================================================================
+# VALUES: the Evaluator as a state machine, and what the history of fit contains
+#   model: lean/SynapModel/TrainMetrics.lean, driver: `train ev …`, `train hist …`, `train testret …`
+# -------------------------------------------------------------------------------------------------
+VALUE_KINDS = ('ev', 'hist', 'histreal', 'testret')
+MODE_NAMES = ['binary', 'multi-class', 'categorical']
+# Finding F-C20-1: Evaluator.step raises on a batch of ONE sample in every mode (`.squeeze()` drops the batch
+# axis), so Trainer.fit with an evaluator raises on such a loader.  The property covers these inputs; they are
+# NOT generated (the model mirrors the crash as `rejected`, set VERIF_C20_SIZE1=1 to see both sides agree on it).
+SIZE1 = os.environ.get('VERIF_C20_SIZE1', '0') == '1'
+
+
+def _rows(rs):
+    return ';'.join(','.join(str(int(v)) for v in r) for r in rs) if rs else '_'
+
+
+def _frac(q):
+    q = Fraction(q)
+    return f'{q.numerator}:{q.denominator}'
+
+
+def _py_pred(mode, scale, score):
+    """the decoding rule of the property, in plain Python: output > 1/2 ; first index of the row maximum"""
+    if mode == 'binary':
+        return 1 if Fraction(int(score[0]), int(scale)) > Fraction(1, 2) else 0
+    return list(score).index(max(score))
+
+
+def _py_true(mode, label):
+    if mode == 'categorical':
+        return list(label).index(max(label))
+    return int(label[0])
+
+
+def _gen_batch(rng, mode, k, scale, n, agree=0.5):
+    labels, scores = [], []
+    for _ in range(n):
+        if mode == 'binary':
+            half = scale // 2
+            v = rng.pick([half - 1, half, half + 1, half + rng.randint(-3, 3), rng.randint(-scale, 2 * scale), 0, scale])
+            sc = [v]
+        else:
+            hi = rng.pick([1, 2, 8])
+            sc = [rng.randint(-hi, hi) for _ in range(k)]
+        want = _py_pred(mode, scale, sc) if rng.chance(agree) else rng.randrange(2 if mode == 'binary' else k)
+        if mode == 'categorical':
+            if rng.chance(0.8):
+                lab = [1 if i == want else 0 for i in range(k)]
+            else:
+                lab = [rng.randint(0, 2) for _ in range(k)]          # soft / tied label rows: the first maximum counts
+        else:
+            lab = [want]
+        labels.append(lab); scores.append(sc)
+    return labels, scores
+
+
+def _tensors(sg, mode, k, scale, labels, scores, layout=0, wide=False):
+    """the batch as tensors; every score / scale is exactly representable in float32"""
+    n = len(labels)
+    if mode == 'binary':
+        out = (np.array([s[0] for s in scores], dtype=np.float64) / scale).astype(np.float32)
+        out = out.reshape(n, 1) if layout & 1 else out.reshape(n)
+        lab = np.array([l[0] for l in labels], dtype=np.float32)
+        lab = lab.reshape(n, 1) if layout & 2 else lab.reshape(n)
+        return sg.Tensor(lab), sg.Tensor(out)
+    out = (np.array(scores, dtype=np.float64).reshape(n, k) / scale).astype(np.float32)
+    if mode == 'multi-class':
+        lab = np.array([l[0] for l in labels], dtype=np.int64).reshape(n)
+        if wide:
+            return sg.Tensor(lab, dtype=np.int32), sg.Tensor(out)
+        if layout & 2:
+            return sg.Tensor(lab.astype(np.float32)), sg.Tensor(out)
+        return sg.Tensor(lab, dtype=np.int8), sg.Tensor(out)
+    return sg.Tensor(np.array(labels, dtype=np.float32).reshape(n, k)), sg.Tensor(out)
+
+
+def _mk_cb(spec):
+    """the callbacks the driver knows (lean/SynapModel/Drv/Train.lean cbValue): name:kind,…"""
+    if spec is None:
+        return None
+    items = [p_.split(':') for p_ in spec.split(',')]
+    def cb(y_true, y_pred):
+        out = []
+        a, b = np.asarray(y_true).astype(np.int64), np.asarray(y_pred).astype(np.int64)
+        for n_, kind in items:
+            if kind == 'len': v = np.float64(len(a))
+            elif kind == 'wsum': v = np.float64((3 * a + b).sum())
+            elif kind == 'dis': v = np.float64((a != b).sum())
+            else: v = int(len(a))                 # 'ilen': a Python int
+            out.append((n_, v))
+        return out
+    return cb
+
+
+def _cb_names(spec):
+    return [] if spec is None else [p_.split(':')[0] for p_ in spec.split(',')]
+
+
+def _tag(v):
+    if isinstance(v, np.float32): return 's' + repr(float(v))
+    if isinstance(v, np.float64): return 'd' + repr(float(v))
+    if isinstance(v, float): return 'p' + repr(v)
+    if isinstance(v, (int, np.integer)) and not isinstance(v, (bool, np.bool_)): return 'i' + str(int(v))
+    return 'x' + type(v).__name__
+
+
+def _show_metrics(ms):
+    return ','.join(f'{k}={_tag(v)}' for k, v in ms) or '_'
+
+
+def _show_hist(h):
+    return ','.join(f"{k}={'|'.join(_tag(v) for v in vs)}" for k, vs in h.items()) or '_'
+
+
+# ---- generation ---------------------------------------------------------------------------------
+def _gen_ev(rng):
+    mode = rng.pick(MODE_NAMES)
+    c = {'kind': 'ev', 'mode': mode, 'k': rng.randint(2, 5), 'scale': rng.pick([4, 1024, 1 << 24]), 'acc': int(rng.chance(0.75)),
+         'ecb': rng.pick([None, None, 'm1:len', 'm1:len,m2:wsum', 'd:dis,accuracy:len', 'i:ilen']),
+         'scb': rng.pick([None, None, 's:dis', 's1:wsum,s2:len']), 'layout': rng.randrange(4), 'ops': []}
+    for _ in range(rng.randint(3, 10)):
+        r = rng.random()
+        if r < 0.62:
+            n = rng.pick([2, 2, 3, 4, 5, 6, 0] + ([1, 1] if SIZE1 else []))
+            labels, scores = _gen_batch(rng, mode, c['k'], c['scale'], n)
+            c['ops'].append(['step', rng.pick([None, None, 'val', 'tst']), labels, scores])
+        elif r < 0.86:
+            c['ops'].append(['compute', rng.pick([None, 'val'])])
+        elif r < 0.93:
+            c['ops'].append(['reset'])
+        else:
+            c['ops'].append(['state'])
+    c['ops'] += [['state'], ['compute', rng.pick([None, 'val'])], ['compute', None]]     # a second compute right after the first
+    return c
+
+
+def _gen_hist(rng, large=False):
+    mode = rng.pick([None] + MODE_NAMES * 2)
+    if large:
+        mode = rng.pick(['binary', 'multi-class'])
+    c = {'kind': 'hist', 'mode': mode, 'k': rng.randint(2, 4), 'scale': rng.pick([4, 1024]), 'large': int(large),
+         'acc': 1 if (mode is None or large) else int(rng.chance(0.8)), 'scb': None if mode is None else rng.pick([None, None, 's:dis']),
+         'ecb': None if (mode is None or large) else rng.pick([None, None, None, 'm1:len', 'm1:dis,m2:wsum', 'loss:len', 'val_loss:len', 'accuracy:dis', 'i:ilen']),
+         'hasVal': int(rng.chance(0.6)), 'pre': None, 'epochs': []}
+    if mode is not None and not large and rng.chance(0.15):          # the evaluator is handed over with leftovers
+        m = rng.randint(1, 4)
+        c['pre'] = [[rng.randrange(3) for _ in range(m)], [rng.randrange(3) for _ in range(m)]]
+    def batches(nb, sizes):
+        out = []
+        for j in range(nb):
+            n = sizes() if mode is not None else 2
+            # the large epoch: more than 32767 correct predictions, so that a 16-bit tally would wrap
+            labels, scores = _gen_batch(rng, mode or 'multi-class', c['k'], c['scale'], n, 0.9 if large else 0.5)
+            out.append([[rng.randint(0, 4096), 1024], labels, scores])
+        return out
+    if large:
+        c['epochs'].append({'train': batches(40, lambda: 1000), 'val': batches(2, lambda: 1000) if c['hasVal'] else []})
+        return c
+    sizes = lambda: rng.pick([2, 2, 3, 4, 5, 7] + ([1] if SIZE1 else []))
+    for e in range(rng.randint(1, 3)):
+        nt = 0 if rng.chance(0.03) else rng.randint(1, 4)
+        nv = 0 if rng.chance(0.03) else rng.randint(1, 3)
+        c['epochs'].append({'train': batches(nt, sizes), 'val': batches(nv, sizes) if c['hasVal'] else []})
+    return c
+
+
+def _gen_histreal(rng):
+    mode = rng.pick([None] + MODE_NAMES * 2)
+    return {'kind': 'histreal', 'mode': mode, 'k': rng.randint(2, 4), 'acc': int(rng.chance(0.85)), 'ecb': rng.pick([None, None, 'm1:len,m2:wsum']),
+            'scb': None, 'hasVal': int(rng.chance(0.6)), 'E': rng.randint(1, 3), 'seed': rng.randrange(1 << 30),
+            'train_sizes': [rng.pick([2, 3, 4, 6]) for _ in range(rng.randint(1, 4))], 'val_sizes': [rng.pick([2, 3, 5]) for _ in range(rng.randint(1, 3))]}
+
+
+def _gen_testret(rng):
+    mode = rng.pick(['binary', 'multi-class'])
+    k = rng.randint(2, 4)
+    bs = []
+    for _ in range(rng.randint(0, 4)):
+        labels, scores = _gen_batch(rng, mode, k, 1, rng.randint(1, 4))
+        bs.append([labels, scores])
+    return {'kind': 'testret', 'mode': mode, 'k': k, 'batches': bs}
+
+
+def _value_cases(rng, tier):
+    q = tier == 'quick'
+    out = [_gen_ev(rng) for _ in range(60 if q else 600)]
+    # labels beyond the int16 range of the evaluator's buffers (train.py l.64: .astype(np.int16)): 40000 is stored as -25536, and
+    # label 65539 is stored as 3 and so COUNTS AS EQUAL to prediction 3 — mirrored by wrap16 in the model; outside the property (oracle: None)
+    out.append({'kind': 'ev', 'mode': 'multi-class', 'k': 4, 'scale': 1, 'acc': 1, 'ecb': 'm1:wsum', 'scb': None, 'layout': 0, 'wide': 1,
+                'ops': [['step', None, [[40000], [65539], [3], [-1], [32767], [32768]], [[0, 0, 0, 1], [0, 1, 2, 3], [5, 5, 5, 9], [1, 0, 0, 0], [0, 0, 0, 0], [2, 1, 0, 0]]],
+                        ['state'], ['compute', None]]})
+    out += [_gen_hist(rng) for _ in range(50 if q else 500)]
+    out += [_gen_hist(rng, large=True) for _ in range(1 if q else 3)]      # 40 x 1000 samples in one epoch
+    out += [_gen_histreal(rng) for _ in range(24 if q else 240)]
+    out += [_gen_testret(rng) for _ in range(8 if q else 40)]
+    return out
+
+
+def _hist_line(mode, scale, acc, ecb, scb, hasVal, pre, epochs):
+    def b(x):
+        if mode is None:
+            return f'{x[0][0]}:{x[0][1]}@_@_'
+        return f'{x[0][0]}:{x[0][1]}@{_rows(x[1])}@{_rows(x[2])}'
+    eps = ['+'.join(b(x) for x in e['train']) + '|' + '+'.join(b(x) for x in e['val']) for e in epochs]
+    yt0, yp0 = (show_ints(pre[0]), show_ints(pre[1])) if pre else ('_', '_')
+    return ' '.join([f"train hist {mode or '-'} {scale} {acc} {ecb or '-'} {scb or '-'} {hasVal} {yt0} {yp0}"] + eps)
+
+
+def _vlines(c):
+    if c['kind'] == 'ev':
+        L = [f"train ev new {c['mode']} {c['scale']} {c['acc']} {c['ecb'] or '-'} {c['scb'] or '-'}"]
+        for op in c['ops']:
+            if op[0] == 'step': L.append(f"train ev step {op[1] or '-'} {_rows(op[2])} {_rows(op[3])}")
+            elif op[0] == 'compute': L.append(f"train ev compute {op[1] or '-'}")
+            elif op[0] == 'reset': L.append('train ev reset')
+            else: L.append('train ev state')
+        return L
+    if c['kind'] == 'hist':
+        return [_hist_line(c['mode'], c['scale'], c['acc'], c['ecb'], c['scb'], c['hasVal'], c['pre'], c['epochs'])]
+    if c['kind'] == 'histreal':
+        return ['train hist - 1 1 - - 0 _ _']          # replaced by impl(): the losses / outputs are those the run produced
+    return ['train testret ' + ('+'.join(f'{_rows(b[0])}@{_rows(b[1])}' for b in c['batches']) or '_')]
+
+
+# ---- execution on the implementation ----------------------------------------------------------------
+def _run_ev(c):
+    sg = common.impl()
+    from synapgrad.nn.utils.train import Evaluator
+    ev = Evaluator(epoch_callback=_mk_cb(c['ecb']), step_callback=_mk_cb(c['scb']), accuracy=bool(c['acc']), mode=c['mode'])
+    out, raw = ['ok'], [None]
+    for op in c['ops']:
+        try:
+            with common.quiet():
+                if op[0] == 'step':
+                    lab, o = _tensors(sg, c['mode'], c['k'], c['scale'], op[2], op[3], c['layout'], bool(c.get('wide')))
+                    m = ev.step(lab, o) if op[1] is None else ev.step(lab, o, prefix=op[1])
+                    out.append(f'metrics={_show_metrics(m)} n={len(ev.y_true)}'); raw.append(m)
+                elif op[0] == 'compute':
+                    m = ev.compute() if op[1] is None else ev.compute(prefix=op[1])
+                    out.append(f'metrics={_show_metrics(m)} n={len(ev.y_true)}'); raw.append(m)
+                elif op[0] == 'reset':
+                    ev.reset(); out.append('ok'); raw.append(None)
+                else:
+                    out.append(f'ytrue={show_ints(ev.y_true)} ypred={show_ints(ev.y_pred)}'); raw.append(None)
+        except Exception:
+            out.append('rejected'); raw.append('rejected')
+    return out, raw
+
+
+class _EpochLoader:
+    """a loader whose batches differ from epoch to epoch (as a shuffling loader's do)"""
+    def __init__(self, per_epoch):
+        self.per_epoch, self.i = per_epoch, -1
+    def __len__(self):
+        return len(self.per_epoch[min(self.i + 1, len(self.per_epoch) - 1)]) if self.per_epoch else 0
+    def __iter__(self):
+        self.i += 1
+        return iter(self.per_epoch[self.i])
+
+
+def _run_hist(c):
+    """Trainer.fit on an identity model; the criterion returns the planned losses (zero gradient: the model stays the identity)"""
+    sg = common.impl()
+    from synapgrad import nn, optim
+    from synapgrad.nn.utils.train import Trainer, Evaluator
+    mode, k = c['mode'], c['k']
+    m_ = mode or 'multi-class'
+    width = 1 if m_ == 'binary' else k
+    lin = nn.Linear(width, width)
+    lin.weight.data[...] = np.eye(width, dtype=np.float32); lin.bias.data[...] = 0
+    queue = [Fraction(x[0][0], x[0][1]) for e in c['epochs'] for x in (e['train'] + e['val'])]
+    rec = []
+    def crit(out, lab):
+        v = np.float32(float(queue.pop(0)))
+        rec.append((not lin.training, float(v), len(out.data)))
+        return (out * 0.0).sum() + sg.Tensor(v)
+    def mk(bs):
+        res = []
+        for x in bs:
+            lab, o = _tensors(sg, m_, k, c['scale'], x[1], x[2], 1)       # inputs (B, width); labels (B,) / (B, k)
+            res.append((o, lab))
+        return res
+    tl = _EpochLoader([mk(e['train']) for e in c['epochs']])
+    vl = _EpochLoader([mk(e['val']) for e in c['epochs']]) if c['hasVal'] else None
+    ev = None if mode is None else Evaluator(epoch_callback=_mk_cb(c['ecb']), step_callback=_mk_cb(c['scb']), accuracy=bool(c['acc']), mode=mode)
+    if c['pre']:
+        ev.y_true = np.array(c['pre'][0], dtype=np.int16); ev.y_pred = np.array(c['pre'][1], dtype=np.int16)
+    tr = Trainer(lin, sg)
+    tr.compile(crit, optim.SGD(lin.parameters(), lr=0.1), ev)
+    hist = tr.fit(tl, len(c['epochs']), validation_loader=vl)
+    assert np.array_equal(lin.weight.data, np.eye(width, dtype=np.float32))
+    return hist, rec, (len(ev.y_true) if ev is not None else 0)
+
+
+def _exact(arrs):
+    """float arrays -> integer rows on one common power-of-two scale (exact)"""
+    fr = [[[Fraction(float(v)) for v in row] for row in a] for a in arrs]
+    den = max([f.denominator for a in fr for row in a for f in row] + [1])
+    return den, [[[int(f * den) for f in row] for row in a] for a in fr]
+
+
+def _run_histreal(c):
+    """real training; a wrapper around the criterion records every batch's loss, labels and outputs"""
+    sg = common.impl()
+    from synapgrad import nn, optim
+    from synapgrad.nn.utils.train import Trainer, Evaluator
+    mode, k = c['mode'], c['k']
+    m_ = mode or 'multi-class'
+    width = 1 if m_ == 'binary' else k
+    F = 3
+    st = np.random.get_state()
+    np.random.seed(c['seed'] % (1 << 31))
+    try:
+        model = nn.Sequential(nn.Linear(F, 4), nn.ReLU(), nn.Linear(4, width))
+        rs = np.random.RandomState(c['seed'] % (1 << 31))
+        def mk(sizes):
+            res = []
+            for n in sizes:
+                X = rs.randn(n, F).astype(np.float32)
+                y = rs.randint(0, 2 if m_ == 'binary' else k, n)
+                if m_ == 'binary': lab = sg.Tensor(y.astype(np.float32))
+                elif m_ == 'categorical': lab = sg.Tensor(np.eye(k, dtype=np.float32)[y])
+                else: lab = sg.Tensor(y, dtype=np.int8)
+                res.append((sg.Tensor(X), lab))
+            return res
+        tl = _EpochLoader([mk(c['train_sizes']) for _ in range(c['E'])])
+        vl = _EpochLoader([mk(c['val_sizes']) for _ in range(c['E'])]) if c['hasVal'] else None
+        base = nn.BCEWithLogitsLoss() if m_ == 'binary' else (nn.MSELoss() if m_ == 'categorical' else nn.CrossEntropyLoss())
+        rec = []
+        def crit(out, lab):
+            l = base(out, lab)
+            rec.append({'val': not model.training, 'loss': l.data.copy(), 'out': out.data.copy().reshape(len(lab.data), -1),
+                        'lab': lab.data.copy().reshape(len(lab.data), -1)})
+            return l
+        ev = None if mode is None else Evaluator(epoch_callback=_mk_cb(c['ecb']), accuracy=bool(c['acc']), mode=mode)
+        tr = Trainer(model, sg)
+        tr.compile(crit, optim.SGD(model.parameters(), lr=0.1, momentum=0.5), ev)
+        hist = tr.fit(tl, c['E'], validation_loader=vl)
+    finally:
+        np.random.set_state(st)
+    return hist, rec, (len(ev.y_true) if ev is not None else 0)
+
+
+def _real_epochs(c, rec):
+    """the recorded batches, grouped per epoch as the loaders produced them"""
+    nt, nv = len(c['train_sizes']), (len(c['val_sizes']) if c['hasVal'] else 0)
+    tr_, va_ = [r for r in rec if not r['val']], [r for r in rec if r['val']]
+    return [{'train': tr_[e * nt:(e + 1) * nt], 'val': va_[e * nv:(e + 1) * nv]} for e in range(c['E'])]
+
+
+def _loss_tol(values, nmax):
+    """rounding slack of a sequential float sum of nmax terms and one division, in the dtype the losses have"""
+    if not values:
+        return Fraction(0)
+    eps = max(float(np.finfo(np.asarray(v).dtype).eps) if isinstance(v, (np.ndarray, np.floating)) else 2.0 ** -52 for v in values)
+    return Fraction((nmax + 2) * eps * max([abs(float(v)) for v in values] + [1e-30]))
+
+
+def _run_testret(c):
+    sg = common.impl()
+    from synapgrad import nn
+    from synapgrad.nn.utils.train import Trainer
+    width = 1 if c['mode'] == 'binary' else c['k']
+    lin = nn.Linear(width, width)
+    lin.weight.data[...] = np.eye(width, dtype=np.float32); lin.bias.data[...] = 0
+    loader = []
+    for labels, scores in c['batches']:
+        lab, o = _tensors(sg, c['mode'], c['k'], 1, labels, scores, 1)
+        loader.append((o, lab))
+    yp, yt = Trainer(lin, sg).test(loader)
+    n = len(yt)
+    if n == 0:
+        assert len(yp) == 0
+        return 'n=0 pred=_ true=_'
+    yp, yt = np.asarray(yp).reshape(n, -1), np.asarray(yt).reshape(n, -1)
+    assert len(yp) == n and np.all(yp == np.round(yp)) and np.all(yt == np.round(yt))
+    return f'n={n} pred={_rows(yp.tolist())} true={_rows(yt.tolist())}'
+
+
+def _vimpl(c):
+    c['_tol'] = Fraction(0)
+    if c['kind'] == 'ev':
+        out, raw = _run_ev(c)
+        return out
+    if c['kind'] == 'testret':
+        r = outcome(lambda: _run_testret(c))
+        return [r]
+    if c['kind'] == 'hist':
+        r = outcome(lambda: _run_hist(c))
+        if r == 'rejected':
+            return ['rejected']
+        hist, rec, n = r
+        c['_tol'] = _loss_tol([np.float32(v) for _, v, _ in rec], max([len(e['train']) + len(e['val']) for e in c['epochs']] + [1]))
+        return [f'hist={_show_hist(hist)} n={n}']
+    r = outcome(lambda: _run_histreal(c))
+    if r == 'rejected':
+        return ['rejected']
+    hist, rec, n = r
+    eps = _real_epochs(c, rec)
+    scale, ints = _exact([r_['out'] for r_ in rec])
+    byid = {id(r_): i for i, r_ in enumerate(rec)}
+    def conv(r_):
+        lf = Fraction(float(r_['loss']))
+        return [[lf.numerator, lf.denominator], [[int(v) for v in row] for row in r_['lab']], ints[byid[id(r_)]]]
+    c['lines'] = [_hist_line(c['mode'], scale, c['acc'], c['ecb'], None, c['hasVal'], None,
+                             [{'train': [conv(r_) for r_ in e['train']], 'val': [conv(r_) for r_ in e['val']]} for e in eps])]
+    c['desc'] = c['lines'][0][:600]
+    c['_tol'] = _loss_tol([r_['loss'] for r_ in rec], max(len(c['train_sizes']), len(c['val_sizes'])))
+    return [f'hist={_show_hist(hist)} n={n}']
+
+
+# ---- comparison -----------------------------------------------------------------------------------
+def _match_val(mtok, itok, tol):
+    """one value of the model (`c/t` counts, `q<num>/<den>` exact rational, `cb<int>` / `cbi<int>`) against the
+    implementation's (s/d/p<float repr>: float32 / float64 / Python float, i<int>)"""
+    try:
+        if mtok.startswith('q'):
+            num, den = mtok[1:].split('/')
+            v = float(itok[1:])
+            return itok[0] in 'sdp' and math.isfinite(v) and abs(Fraction(v) - Fraction(int(num), int(den))) <= tol
+        if mtok.startswith('cbi'):
+            return itok == 'i' + mtok[3:]
+        if mtok.startswith('cb'):
+            return itok[0] in 'dp' and float(itok[1:]) == int(mtok[2:])
+        c_, t_ = mtok.split('/')
+        if itok[0] != 'd':
+            return False
+        v = float(itok[1:])
+        if int(t_) == 0:
+            return math.isnan(v)                     # 0 / 0 : NumPy's nan
+        return v == int(c_) / int(t_)                # counts compared exactly: the correctly rounded quotient
+    except Exception:
+        return False
+
+
+def _match_metrics(m, i, tol, sep):
+    """`k=v,k=v` (sep None) or `k=v|v|v,…` (sep '|') : same keys in the same order, same number of values, values match"""
+    if m == '_' or i == '_':
+        return m == i
+    mp, ip = [x.split('=', 1) for x in m.split(',')], [x.split('=', 1) for x in i.split(',')]
+    if [x[0] for x in mp] != [x[0] for x in ip]:
+        return False
+    for (_, mv), (_, iv) in zip(mp, ip):
+        mvs, ivs = (mv.split(sep), iv.split(sep)) if sep else ([mv], [iv])
+        if len(mvs) != len(ivs) or not all(_match_val(a, b, tol) for a, b in zip(mvs, ivs)):
+            return False
+    return True
+
+
+def _match_line(m, i, tol):
+    if m == i:
+        return True
+    mf, jf = m.split(' '), i.split(' ')
+    if len(mf) != 2 or len(jf) != 2 or mf[1] != jf[1]:          # n=<accumulated samples> exactly
+        return False
+    for key, sep in (('metrics=', None), ('hist=', '|')):
+        if mf[0].startswith(key) and jf[0].startswith(key):
+            return _match_metrics(mf[0][len(key):], jf[0][len(key):], tol, sep)
+    return False
+
+
+def _vcompare(c, mo, io):
+    tol = c.get('_tol', Fraction(0))
+    return [(k, m[:300], i[:300]) for k, (m, i) in enumerate(zip(mo, io)) if not _match_line(m, i, tol)]
+
+
+def _vnontrivial(c):
+    if c['kind'] == 'ev':
+        return any(op[0] == 'step' and len(op[2]) >= 2 for op in c['ops'])
+    if c['kind'] == 'hist':
+        return all(e['train'] and (e['val'] or not c['hasVal']) for e in c['epochs'])
+    if c['kind'] == 'histreal':
+        return True
+    return len(c['batches']) > 0
+
+
+# ---- the property judged on the implementation alone ------------------------------------------------
+def _vfail(c, cls, what):
+    cc = {k: v for k, v in c.items() if not k.startswith('_') and k not in ('lines', 'desc')}
+    if c.get('large'):
+        cc['epochs'] = 'regenerate: large epoch'          # too big for a replay file; the class is what matters
+    return {'key': {'kind': c['kind'], 'class': cls, 'mode': c.get('mode')}, 'case': dict(cc, lines=[], desc=c.get('desc', '')[:300]), 'what': what}
+
+
+def _check_metric_list(c, m, prefix, yt, yp, cbspec, where):
+    """metrics returned by one step / compute against the definition: accuracy = fraction of positions where the decoded
+    label equals the decoded prediction, then the callback's metrics, all prefixed"""
+    keys = (['accuracy'] if c['acc'] else []) + _cb_names(cbspec)
+    keys = [f'{prefix}_{k_}' for k_ in keys] if prefix is not None else keys
+    if [k_ for k_, _ in m] != keys:
+        return _vfail(c, 'keys', f'{where}: metric names {[k_ for k_, _ in m]}, expected {keys}')
+    if c['acc']:
+        v = float(m[0][1])
+        correct = sum(1 for a, b in zip(yt, yp) if a == b)
+        if len(yt) == 0:
+            if not math.isnan(v):
+                return _vfail(c, 'empty', f'{where}: accuracy over no samples is {v}')
+        elif v != correct / len(yt):
+            return _vfail(c, 'accuracy', f'{where}: accuracy {v}, but {correct} of {len(yt)} predictions are correct ({correct / len(yt)})')
+    return None
+
+
+def _oracle_ev(c):
+    if c.get('wide'):
+        return None
+    out, raw = _run_ev(c)
+    yt, yp = [], []
+    for op, r in zip(c['ops'], raw[1:]):
+        if op[0] == 'step':
+            legal = len(op[2]) != 1
+            if r == 'rejected':
+                if legal or SIZE1:
+                    return _vfail(c, 'rejected', f'Evaluator.step raised on a batch of {len(op[2])} samples')
+                continue
+            bt = [_py_true(c['mode'], l) for l in op[2]]
+            bp = [_py_pred(c['mode'], c['scale'], s_) for s_ in op[3]]
+            yt += bt; yp += bp
+            f = _check_metric_list(c, r, op[1], bt, bp, c['scb'], 'step')
+            if f: return f
+        elif op[0] == 'compute':
+            if r == 'rejected':
+                return _vfail(c, 'rejected', 'Evaluator.compute raised')
+            f = _check_metric_list(c, r, op[1], yt, yp, c['ecb'], f'compute after {len(yt)} accumulated samples')
+            if f: return f
+            yt, yp = [], []
+        elif op[0] == 'reset':
+            yt, yp = [], []
+    return None
+
+
+def _oracle_hist(c):
+    real = c['kind'] == 'histreal'
+    r = outcome(lambda: (_run_histreal if real else _run_hist)(c))
+    names = _cb_names(c['ecb']) if c['mode'] is not None else []
+    evkeys = ((['accuracy'] if c['acc'] else []) + names) if c['mode'] is not None else []
+    keys = ['loss'] + evkeys + ((['val_loss'] + ['val_' + k_ for k_ in evkeys]) if c['hasVal'] else [])
+    if len(set(keys)) != len(keys) or 'ilen' in (c['ecb'] or ''):
+        return None        # the property speaks about callbacks whose metric names are their own and whose values are floats
+    if real:
+        legal = True
+    else:
+        sizes = [len(x[1]) for e in c['epochs'] for x in e['train'] + e['val']]
+        legal = all(e['train'] and (e['val'] or not c['hasVal']) for e in c['epochs']) and (c['mode'] is None or 1 not in sizes)
+    if r == 'rejected':
+        return _vfail(c, 'rejected', 'fit raised on a legal configuration') if legal else None
+    hist, rec, n = r
+    if real:
+        eps = [{'train': [(float(x['loss']), x) for x in e['train']], 'val': [(float(x['loss']), x) for x in e['val']]} for e in _real_epochs(c, rec)]
+        tol = _loss_tol([x['loss'] for x in rec], max(len(c['train_sizes']), len(c['val_sizes'])))
+        def decode(x):
+            o, l = x['out'], x['lab']
+            if c['mode'] == 'binary':
+                return [int(v[0]) for v in l], [1 if float(v[0]) > 0.5 else 0 for v in o]
+            yp_ = [list(map(float, row)).index(max(map(float, row))) for row in o]
+            if c['mode'] == 'categorical':
+                return [list(map(float, row)).index(max(map(float, row))) for row in l], yp_
+            return [int(v[0]) for v in l], yp_
+    else:
+        it = iter(rec)
+        eps = []
+        for e in c['epochs']:
+            eps.append({'train': [(next(it)[1], x) for x in e['train']], 'val': [(next(it)[1], x) for x in e['val']]})
+        tol = _loss_tol([np.float32(v) for _, v, _ in rec], max([len(e['train']) + len(e['val']) for e in c['epochs']] + [1]))
+        def decode(x):
+            return [_py_true(c['mode'], l) for l in x[1]], [_py_pred(c['mode'], c['scale'], s_) for s_ in x[2]]
+    E = len(eps)
+    got = {k_: len(v) for k_, v in hist.items()}
+    if E and (list(hist.keys()) != keys or any(v != E for v in got.values())):
+        return _vfail(c, 'history', f'history entries {got}, expected one per epoch ({E}) for exactly {keys}')
+    for e_i, e in enumerate(eps):
+        for part, pre in (('train', ''), ('val', 'val_')):
+            if part == 'val' and not c['hasVal']:
+                continue
+            ls = [Fraction(l) for l, _ in e[part]]
+            mean = sum(ls) / len(ls)
+            v = float(hist[pre + 'loss'][e_i])
+            if not math.isfinite(v) or abs(Fraction(v) - mean) > tol:
+                return _vfail(c, 'lossmean', f'epoch {e_i}: {pre}loss {v}, mean of the {len(ls)} batch losses {float(mean)}')
+            if c['mode'] is not None and c['acc']:
+                yt, yp = [], []
+                if e_i == 0 and part == 'train' and c.get('pre'):
+                    yt, yp = list(c['pre'][0]), list(c['pre'][1])     # what the evaluator had accumulated since its last compute / reset
+                for _, x in e[part]:
+                    a, b = decode(x)
+                    yt += a; yp += b
+                correct = sum(1 for a, b in zip(yt, yp) if a == b)
+                v = float(hist[pre + 'accuracy'][e_i])
+                if len(yt) and v != correct / len(yt):
+                    return _vfail(c, 'accuracy', f'epoch {e_i}: {pre}accuracy {v}, but {correct} of the {len(yt)} predictions of the epoch are correct ({correct / len(yt)})')
+    return None
+
+
+def _voracle(c):
+    if c['kind'] == 'hist' and c.get('epochs') == 'regenerate: large epoch':
+        return None
+    if c['kind'] == 'ev':
+        return _oracle_ev(c)
+    if c['kind'] in ('hist', 'histreal'):
+        return _oracle_hist(c)
+    r = outcome(lambda: _run_testret(c))
+    if r == 'rejected':
+        return _vfail(c, 'rejected', 'Trainer.test raised')
+    n = sum(len(b[0]) for b in c['batches'])
+    if not r.startswith(f'n={n} '):
+        return _vfail(c, 'testret', f'Trainer.test returned {r.split(" ")[0]} for {n} samples')
     return None
 
 
